@@ -14,7 +14,7 @@ GEN_DEPS = []
 RULE = ('forms for 4 catalogue structs (text fields, Option<String>, File, Option<File>, Vec<File>): 0-5 files under one name, empty files, contents with CR / LF / CRLF / "--" / NUL / high bytes / '
         'near-miss delimiters, Unicode names and filenames, any boundary token, optional part headers (Content-Type on text parts, extra headers, header-name case), fields in any order, unknown fields, '
         'shape mismatches (two files into File, text into File, file into text), plus mutated bodies; non-trivial = a file part with awkward content or >= 2 files or optional headers')
-ASSUMPTIONS = ['the delimiter ("--" + boundary) occurs nowhere inside a part content (hypothesis FitsBoundary; the class where it occurs mid-line is the known finding KF-C10-boundary-in-content)',
+ASSUMPTIONS = ['the delimiter (CRLF "--" boundary, RFC 2046 5.1.1) occurs nowhere inside a part content, i.e. "--" boundary starts no line of it (hypothesis Fits of parse_encode); in the middle of a line it is content',
                'file parts carry a Content-Type (the media type the property compares); same-name files are adjacent in the form']
 FIELDS = {0: [['note', 'optText', False], ['f', 'optFile', False], ['fs', 'files', True]],
           1: [['title', 'text', False], ['doc', 'file', False]],
@@ -25,14 +25,20 @@ MIMES = ['application/octet-stream', 'image/png', 'text/plain', 'text/plain; cha
          'application/x-www-form-urlencoded', 'multipart/form-data', 'MULTIPART/MIXEDX', 'x/y; a=b; c="d;e"']          # any media type (a part of type multipart/mixed itself is a nested multipart, which RFC 7578 deprecates: not generated)
 
 
+def DELIM(boundary):
+    return b'\r\n--' + boundary.encode()
+
+
 def content_gen(rng, boundary):
     n = rng.choice([0, 1, 2, 5, 40, 600])
     kind = rng.random()
     if kind < 0.4: c = bytes(rng.randrange(256) for _ in range(n))
-    elif kind < 0.6: c = rng.choice([b'abc\r', b'abc\n', b'abc\r\n', b'\r\n', b'\r\n\r\n', b'a--b--', b'--', b'\r\n--', b'\x00\xff\x01\xfe', b'pre\r\n--' + boundary[:-1].encode() + b'Y post', b'-' * 5])
+    elif kind < 0.6: c = rng.choice([b'abc\r', b'abc\n', b'abc\r\n', b'\r\n', b'\r\n\r\n', b'a--b--', b'--', b'\r\n--', b'\x00\xff\x01\xfe', b'pre\r\n--' + boundary[:-1].encode() + b'Y post', b'-' * 5,
+                                     # "--" boundary in the middle of a line is content: the delimiter is CRLF "--" boundary (RFC 2046 5.1.1)
+                                     b'pre --' + boundary.encode() + b' post', b'x--' + boundary.encode() + b'--', b'a\n--' + boundary.encode() + b'\r\n', b'a\r--' + boundary.encode(), b'see --' + boundary.encode() + b'\r\nnext line'])
     elif kind < 0.7: c = ('line1\r\nline2 ' + 'é日本').encode()
     else: c = bytes(rng.choice(b'ab \r\n-') for _ in range(n))
-    if ('--' + boundary).encode() in c: c = c.replace(b'-', b'_')
+    if DELIM(boundary) in b'\r\n' + c: c = c.replace(b'-', b'_')          # a conforming encoder's delimiter starts no line of a part
     return c
 
 
@@ -114,7 +120,7 @@ def mk(rng):
     tid = rng.randrange(5)
     boundary = rng.choice(['XbX', '----WebKitFormBoundary7MA4YWxkTrZu0gW', 'b', "a'()+_,-./:=?", '0' * 70, 'boundary', 'AaB03x--', '--', '----form--', '-'])          # a boundary token may itself end in two hyphens
     parts, expected = form_gen(rng, tid, boundary)
-    while any(('--' + boundary).encode() in p[3] for p in parts): boundary += 'Zq9'        # a conforming encoder picks a delimiter that occurs in no part
+    while any(DELIM(boundary) in b'\r\n' + p[3] for p in parts): boundary += 'Zq9'        # a conforming encoder picks a delimiter (CRLF "--" boundary) that occurs in no part
     body = encode(boundary, parts, rng, optional=rng.random() < 0.5)
     return {'case': {'tid': tid, 'fields': FIELDS[tid], 'input': body.hex(), 'expected': expected}, 'stream': 'form'}
 
@@ -141,7 +147,8 @@ def corpus():
            {'case': {'tid': 3, 'fields': FIELDS[3], 'input': b'--XbX\r\nContent-Disposition: form-data; name="x"\r\n\r\n--XbX--\r\n'.hex(), 'expected': None}},   # was: subtraction overflow
            {'case': {'tid': 3, 'fields': FIELDS[3], 'input': b'--XbX\r\nContent-Disposition: form-data; name="x"\r\n\r\nx--XbX--\r\n'.hex(), 'expected': None}},
            C(0, [('fs', '1', 'a/b', b'one'), ('fs', '2', 'a/b', b'two'), ('fs', '3', 'a/b', b'three')], [[hx('note'), 'none'], [hx('f'), 'none'], [hx('fs'), {'seq': [file_j('1', 'a/b', b'one'), file_j('2', 'a/b', b'two'), file_j('3', 'a/b', b'three')]}]]),
-           {'case': {'tid': 1, 'fields': FIELDS[1], 'input': body(B, [('title', None, None, b't'), ('doc', 'a.bin', 'image/png', b'pre --XbX post')]).hex(), 'expected': 'kf-boundary'}}]     # known finding
+           {'case': {'tid': 1, 'fields': FIELDS[1], 'input': body(B, [('title', None, None, b't'), ('doc', 'a.bin', 'image/png', b'pre --XbX post')]).hex(),
+                     'expected': [[hx('title'), {'s': hx('t')}], [hx('doc'), {'file': file_j('a.bin', 'image/png', b'pre --XbX post')}]]}}]     # was: refused with 'Missing CRLF' (known finding KF-C10-boundary-in-content until the part loop searched for CRLF "--" boundary)
     for c in [b'abc\r', b'abc\n', b'abc\r\n', b'a--b--', b'pre\r\n--XbY post', b'\x00\xff\x01\xfe', b'', b'\r\n']:
         out.append(C(1, [('title', None, None, b't'), ('doc', 'a.bin', 'application/octet-stream', c)], [[hx('title'), {'s': hx('t')}], [hx('doc'), {'file': file_j('a.bin', 'application/octet-stream', c)}]] if c or True else None))
     return out
@@ -156,9 +163,7 @@ def judge(case, out, m):
     v = []
     if 'panic' in out or 'abort' in out or 'hang' in out or out.get('outcome') == 'panic': return [('violation', 'decoder panicked / aborted: ' + str(out)[:140])]
     exp = case.get('expected')
-    if exp == 'kf-boundary':
-        if out.get('outcome') != 'ok': v.append(('violation', 'a part whose content holds the delimiter mid-line is refused (the delimiter of RFC 2046 is CRLF "--" boundary)', 'KF-C10-boundary-in-content'))
-    elif exp == 'error':
+    if exp == 'error':
         if out.get('outcome') != 'err': v.append(('violation', f'the form does not fit the target type but was accepted as {str(out)[:200]}'))
     elif exp is not None:
         # a File field given the empty file input is a shape mismatch too
